@@ -34,7 +34,9 @@ LEVEL_NOTE = ("proved about the protocol model; NOT modelled (hence the partial 
               "retry: the output then holds every record plus one empty line decoded from the truncated entry (classified "
               "writer-output-has-junk-line-after-spill-fault; such tainted runs are judged by the oracle only)")
 RULE = ("workloads = histories of add / iterate(k pulls, then abandon) / close on Sorter (generic codec, distinct integer "
-        "keys, 0-7 records, capacity 1..n+1, both spill policies, re-iteration, adding after iterating, close in the middle) "
+        "keys, 0-7 records, capacity 1..n+1, both spill policies, re-iteration, adding after iterating, close in the middle, "
+        "abandoning = generator.close(), or the caller keeping the half-consumed generator alive across close() with the "
+        "descriptors counted while it is alive) "
         "and MafWriter with a sorting MafSorter (capacity lowered from outside, 0-6 records; some callers re-use ONE record "
         "object edited in place between writes, or go on adding/removing columns of the first record after handing it "
         "over - completeness is judged against the records as they were at hand-over); each case first runs "
@@ -234,6 +236,7 @@ def _sorter_run(case, fault):
         before = _fds()
         sorter, _, _ = G.make_generic({"flavour": "t/int"}, case["cap"], case["always"], tmp)
         obs, surfaced, tainted, stopped = [], [], False, False
+        kept = []
         for o in case["ops"]:
             if stopped:
                 break
@@ -256,6 +259,13 @@ def _sorter_run(case, fault):
                     pass
                 except Exception as e:  # noqa: BLE001
                     out = G.exc_code(e)
+                if len(o) > 2 and o[2]:
+                    kept.append(it)          # the caller keeps the half-consumed generator alive
+                elif out is None:
+                    try:
+                        it.close()           # abandoning = generator.close(): its cleanup may fail, and says so
+                    except Exception as e:  # noqa: BLE001
+                        out = G.exc_code(e)
                 del it
             else:
                 try:
@@ -282,9 +292,25 @@ def _sorter_run(case, fault):
             closes.append([out] if out else [])
             if out is None:
                 break
+        after_close = [len(os.listdir(tmp)), len(_fds() - before)]       # generators still alive here
+        drops = []
+        while kept:
+            g = kept.pop(0)
+            h0 = inj.hit
+            try:
+                g.close()
+                out = None
+            except Exception as e:  # noqa: BLE001
+                out = G.exc_code(e)
+            if inj.hit is not None and h0 is None:
+                surfaced.append(["drop", inj.hit, out])
+            drops.append([out] if out else [])
+            del g
         left = len(os.listdir(tmp))
         leak = len(_fds() - before)
-        return {"obs": obs, "closes": closes, "final": [left, leak], "log": inj.log, "hit": inj.hit,
+        return {"obs": obs, "closes": closes, "after_close": after_close, "drops": [d for d in drops if d], "_n_kept": len(drops),
+                "final": [left, leak],
+                "log": inj.log, "hit": inj.hit,
                 "_surfaced": surfaced, "_enoent": inj.enoent, "_flavour": inj.flavour, "_leaked_fds": sorted(_fds() - before)}
     finally:
         nostdin.__exit__()
@@ -499,7 +525,7 @@ def _wops(case):
         if o[0] == "add":
             out.append([0, o[1], o[2], 0])
         elif o[0] == "iter":
-            out.append([1, o[1]])
+            out.append([1, o[1], 1] if len(o) > 2 and o[2] else [1, o[1]])
         else:
             out.append([2])
     return out
@@ -526,8 +552,9 @@ def _m_out(o):
 
 
 def _m_sorter(sx):
-    obs, closes, counts, log, hit = sx
+    obs, closes, counts, log, hit, cc, drops = sx
     return {"obs": [[_m_out(o[0]), o[1], o[2], o[3]] for o in obs], "closes": closes,
+            "after_close": [cc[0], cc[1] + cc[2] + cc[3]], "drops": [d for d in drops if d],
             "final": [counts[0], counts[1] + counts[2] + counts[3]], "log": log, "hit": (hit[0] if hit else None)}
 
 
@@ -573,9 +600,17 @@ def _judge(case, r, label):
             if r["final"][1]:
                 out.append("descriptor-left %s: descriptor(s) %r still open after close() returned%s" % (
                     label, r.get("_leaked_fds"), " (stdin closed during the run)" if case.get("nostdin") else ""))
-        # between operations no gzip handle stays open: descriptors = registered spill files
-        for n, o in enumerate(r["obs"]):
-            if o[3] > o[2]:
+        # once close() has returned normally nothing may be open, whether or not the caller still holds a generator
+        if r["closes"][-1] == [] and len(r["closes"]) <= 2 and (r["after_close"][0] or r["after_close"][1]):
+            out.append("descriptor-left-while-generator-alive %s: after close() returned: %d file(s), %d descriptor(s), "
+                       "the caller still holding %d generator(s)" % (label, r["after_close"][0], r["after_close"][1], r.get("_n_kept", 0)))
+        # while no fault has happened and no generator is kept, no gzip handle stays open between operations
+        kept = False
+        for n, (op, o) in enumerate(zip(case["ops"], r["obs"])):
+            kept = kept or (op[0] == "iter" and len(op) > 2 and op[2])
+            if o[0] != []:
+                break
+            if not kept and o[3] > o[2]:
                 out.append("handle-left-open %s: after op %d %d descriptors for %d files" % (label, n, o[3], o[2]))
                 break
     else:
@@ -668,6 +703,13 @@ def _history(rng, stream):
         ops.append(["iter", full])
         if rng.random() < 0.5:
             ops.append(["close"])
+    if rng.random() < 0.3:
+        # the caller keeps a half-consumed generator alive across close()
+        for o in ops:
+            if o[0] == "iter" and rng.random() < 0.7:
+                o.append(1)
+                if o[1] > n and rng.random() < 0.8:
+                    o[1] = rng.randint(1, max(1, n))
     return {"stream": stream, "kind": "sorter", "cap": cap, "always": rng.random() < 0.6,
             "stop": stream != "adversarial" or rng.random() < 0.4, "ops": ops, "fault": "sweep",
             "flavour": rng.choice([0, 0, 0, 1, 2, 2]), "nostdin": rng.random() < 0.35}
@@ -750,6 +792,12 @@ def corpus():
          "edit_first": "add"},
         {"stream": "corpus", "kind": "writer", "cap": 2, "recs": [[3, 0], [1, 1], [2, 2], [5, 3]], "fault": None,
          "edit_first": "del"},
+        # pinned tree before a9919d2: `it = iter(s); next(it); s.close()` with `it` kept alive left the read
+        # descriptors of the abandoned iteration open after close()
+        {"stream": "corpus", "kind": "sorter", "cap": 2, "always": True, "stop": False, "ops": adds + [["iter", 1, 1], ["close"]],
+         "fault": None},
+        {"stream": "corpus", "kind": "sorter", "cap": 2, "always": True, "stop": False, "ops": adds + [["iter", 2, 1]],
+         "fault": "sweep", "flavour": 0},
         {"stream": "corpus", "kind": "trunc", "cap": 2, "keys": [3, 1, 2, 5, 4, 0], "writer": False},
         {"stream": "corpus", "kind": "trunc", "cap": 2, "keys": [3, 1, 2, 5, 4, 0], "writer": True},
     ]
